@@ -421,7 +421,7 @@ fn classify(rule: &str, input: &str, what: &str) -> String {
 }
 
 pub fn replay(case: &Value) -> Vec<Violation> {
-    if case["kind"] == "conformance" {
+    if case["kind"] == "conformance" || case["kind"] == "escape" {
         quiet_panics();
         return crate::c16conf::replay(case);
     }
